@@ -1,5 +1,5 @@
 SPECIFICATION Spec
-CONSTANTS MaxEv = 40  NoSchedOn = FALSE  OwnDefault = TRUE
+CONSTANTS MaxEv = 40  NoSchedOn = FALSE  OwnDefault = TRUE  FetchOn = TRUE
   Zones <- ZonesC  Vers <- VersT  NF <- NFc  ZoneOf <- ZoneOfC
 CONSTRAINT Bound
 INVARIANT SameOrNone
